@@ -371,15 +371,31 @@ def parse_consts():
         raise Refuse('gen.cpp: initial file context (.fs = {.name, .line}) not found')
     rootfs = (m.group(1), int(m.group(2)))
     guards = {}
-    m = re.search(r'int strToInt\(GenState &gs, Node \*c\)\s*\{\s*long v = std::strtol\(c->tok\.c_str\(\), NULL, 10\);\s*if \(v (>=|>) INT_MAX\)', g)
-    if not m:
-        raise Refuse('gen.cpp: strToInt guard changed shape')
-    guards['gen'] = m.group(1)
+
+    def guard_of(src, fname):
+        """the range guard of `int strToInt(...)`: the value is `long v = std::strtol(<text>, NULL, 10)` and exactly one
+        comparison `v >= INT_MAX` / `v > INT_MAX` decides the error; parameter spelling, braces and the way the error
+        position is computed may vary, anything else about the conversion may not"""
+        src = strip_comments(src)
+        m0 = re.search(r'\bint\s+strToInt\s*\(([^)]*)\)\s*\{', src)
+        if not m0:
+            raise Refuse('%s: strToInt not found' % fname)
+        depth, i = 1, m0.end()
+        while i < len(src) and depth:
+            depth += {'{': 1, '}': -1}.get(src[i], 0)
+            i += 1
+        body = src[m0.end():i - 1]
+        if len(re.findall(r'\blong\s+v\s*=\s*std::strtol\s*\(\s*[\w>.\-]+\.c_str\(\)\s*,\s*(?:NULL|nullptr)\s*,\s*10\s*\)\s*;', body)) != 1:
+            raise Refuse('%s: strToInt guard changed shape (conversion)' % fname)
+        cmps = re.findall(r'\bif\s*\(\s*v\s*(>=|>)\s*INT_MAX\s*\)', body)
+        if len(cmps) != 1 or len(re.findall(r'\bif\s*\(', body)) != 1 or re.search(r'\berrno\b|\bv\s*=[^=]', body.split('strtol', 1)[1].split(';', 1)[1]):
+            raise Refuse('%s: strToInt guard changed shape' % fname)
+        if not re.search(r'return\s+v\s*;', body):
+            raise Refuse('%s: strToInt guard changed shape (result)' % fname)
+        return cmps[0]
+    guards['gen'] = guard_of(g, 'gen.cpp')
     mc = read('Compiler/src/macro.cpp')
-    m = re.search(r'int strToInt\(ExtractionState &es, std::string tok\)\s*\{\s*long v = std::strtol\(tok\.c_str\(\), NULL, 10\);.*?if \(v (>=|>) INT_MAX\)', mc, flags=re.S)
-    if not m:
-        raise Refuse('macro.cpp: strToInt guard changed shape')
-    guards['macro'] = m.group(1)
+    guards['macro'] = guard_of(mc, 'macro.cpp')
     return passes, bytes(out), stdname, phrase, genstd, guards, rootfs
 
 
